@@ -11,8 +11,12 @@ Workload: a case is a *session* of 10-30 runs on one DUT.  Every run draws a sta
 positions, directed at 0 / last word / out of range when the start_position signal can represent it) and a
 max_length (0, 1, W-1, W, W+1, rest-1, rest, rest+1, multiples of the word size, data length, data length+5,
 random).  Inputs carry garbage between runs and are applied either exactly in the start cycle or a few cycles
-earlier; they are held from the start strobe until `done` (the property does not speak about inputs that change
-while streaming).  `start` is a one-cycle strobe, issued only while the generator is idle; the next start comes
+earlier; for the constant generator ("applied when start() is pulsed", max_length is registered) they are
+overwritten with garbage after the start strobe in 30 % of the runs (max_length only, or max_length and
+start_position), for the serializer (no latch documented) they are held until `done`.  The generator lives in
+clock domain sync / usb / ss / aux (then `sync` runs at an unrelated 23..131 MHz as a bystander), `data_width` is
+passed or omitted (width taken from the stream type), the serializer also gets a max_length port with 16/32-bit
+items (max_length may count items or bytes there: the first run that tells the two apart fixes the reading).  `start` is a one-cycle strobe, issued only while the generator is idle; the next start comes
 0..6 cycles after `done` (0 = the very next cycle).  `ready` profiles: always, random p, bursty, toggle, plus
 directed stalls of 1..9 cycles exactly on the first word, on the last word and on the word before the last.
 
@@ -51,7 +55,9 @@ REQUIRED_BINS = [
     "end_by_both_exact", "partial_word_by_max_length", "partial_word_by_data_length", "both_end_conditions_partial",
     "start_nonzero", "start_last_word", "start_out_of_range", "single_word_run", "stall_on_last_word", "stall_on_first_word",
     "restart_next_cycle", "run_after_zero_length", "max_length_above_data", "inputs_applied_in_start_cycle",
-    "big_endian_partial_word",
+    "big_endian_partial_word", "domain_sync", "domain_other", "sync_bystander_faster", "sync_bystander_slower",
+    "data_width_omitted", "serializer_wide_with_max_length", "inputs_changed_after_start",
+    "start_position_changed_after_start", "max_length_changed_after_start",
 ]
 REQUIRED_EVENTS = ["runs_judged", "words_compared", "words_accepted", "done_pulses", "zero_length_runs_judged",
                    "output_length_compared", "valid_cycles_compared", "initializer_postcondition_checked",
@@ -115,21 +121,41 @@ class Config:
         self.ctor_len = len(self.data) if self.bytes_mode else len(self.items)
         self.sp_bits = max(0, (self.ctor_len - 1).bit_length())
         # max_length port
-        if k == "serializer" and self.pw != 8:
-            self.mlw = None
-        elif rng.random() < 0.22:
+        if rng.random() < (0.5 if (k == "serializer" and self.pw != 8) else 0.22):
             self.mlw = None
         else:
             need = (self.nbytes + 5).bit_length()
             self.mlw = rng.choice([need, need, 16, 16, max(1, self.nbytes.bit_length()), rng.randint(max(1, need - 2), 16)])
         self.max_m = (1 << self.mlw) - 1 if self.mlw else None
+        # the serializer's max_length with 16/32-bit data: "maximum length" may count items or bytes; decided by the
+        # first run in which the two readings differ, then demanded consistently
+        self.ser_wide = k == "serializer" and self.pw != 8
+        self.ser_unit = None
+        self.ser_bpw = self.pw // 8
+        # clock domain the generator is asked to live in (all users inside luna pass "usb" or "ss")
+        self.domain = rng.choice(["sync", "sync", "usb", "usb", "ss", "aux"])
+        self.sync_freq = rng.choice([23e6, 41e6, 97e6, 131e6])       # bystander clock, unrelated to the 60 MHz of the DUT's domain
+        # data_width omitted: the width comes from the stream type (what the in-tree users do)
+        self.dw_none = rng.random() < 0.4 and (k != "serializer" or self.pw == 8)
 
     def describe(self):
         d = {"kind": self.kind, "endian": self.endian, "payload_width": self.pw, "valid_width": self.vw,
-             "max_length_width": self.mlw, "words": self.nwords, "bytes": self.nbytes}
+             "max_length_width": self.mlw, "words": self.nwords, "bytes": self.nbytes, "domain": self.domain,
+             "data_width_omitted": self.dw_none}
         if self.bytes_mode:
             d["data"] = self.data.hex()
         return d
+
+    def alternative(self, p, m):
+        """serializer with wide items, reading of max_length still open: the beats under the 'bytes' reading, if it differs"""
+        if not self.ser_wide or self.ser_unit is not None or m is None or p >= self.nwords:
+            return None
+        rest = self.items[p:]
+        a = rest[:(m + self.ser_bpw - 1) // self.ser_bpw]
+        if len(a) == len(rest[:m]) or not a:
+            return None
+        beats = [{"word": w, "k": self.bpw, "full": True, "first": i == 0, "last": i == len(a) - 1} for i, w in enumerate(a)]
+        return beats
 
     def data_length_for_output(self):
         return self.ctor_len
@@ -150,7 +176,8 @@ class Config:
         else:
             rest = self.items[p:]
             if m is not None:
-                rest = rest[:(m + self.bpw - 1) // self.bpw]
+                unit = self.ser_bpw if (self.ser_wide and self.ser_unit == "bytes") else self.bpw
+                rest = rest[:(m + unit - 1) // unit]
             beats = [{"word": w, "k": self.bpw, "full": True} for w in rest]
         for i, bt in enumerate(beats):
             bt["first"] = i == 0
@@ -166,8 +193,9 @@ def build(cfg, res):
     import icontract
 
     if cfg.kind == "serializer":
-        return StreamSerializer(data_length=len(cfg.items), domain="sync", data_width=cfg.pw,
-                                stream_type=StreamInterface, max_length_width=cfg.mlw)
+        kw = {} if cfg.dw_none else {"data_width": cfg.pw}
+        return StreamSerializer(data_length=len(cfg.items), domain=cfg.domain, stream_type=StreamInterface,
+                                max_length_width=cfg.mlw, **kw)
 
     # harness-side post-condition on the ROM initializer (python level, evaluated during elaboration)
     def roundtrip(result):
@@ -203,11 +231,25 @@ def build(cfg, res):
         return StreamInterface(payload_width=payload_width, valid_width=vw)
 
     const = cfg.data if cfg.bytes_mode else list(cfg.items)
-    dut = ConstantStreamGenerator(const, domain="sync", stream_type=stream_type, max_length_width=cfg.mlw,
-                                  data_width=pw, data_endianness=cfg.endian)
+    dut = ConstantStreamGenerator(const, domain=cfg.domain, stream_type=stream_type, max_length_width=cfg.mlw,
+                                  data_width=None if cfg.dw_none else pw, data_endianness=cfg.endian)
     # instance-level wrap: behaviour unchanged, result checked
     dut._get_initializer_value = lambda: wrapped(dut)
     return dut
+
+
+def with_bystander(dut):
+    """top level that keeps a `sync` domain alive next to a generator living in another domain"""
+    from amaranth import Elaboratable, Module, Signal
+
+    class Top(Elaboratable):
+        def elaborate(self, platform):
+            m = Module()
+            m.submodules.dut = dut
+            tick = Signal(8)
+            m.d.sync += tick.eq(tick + 1)
+            return m
+    return Top()
 
 
 # --------------------------------------------------------------------------------------------- check
@@ -224,8 +266,17 @@ def run_case(rng, tier, res):
     res.desc = {"config": cfg.describe(), "runs": []}
     res.sig(sorted(cfg.describe().items()))
     dut = build(cfg, res)
+    res.bin("domain_sync" if cfg.domain == "sync" else "domain_other")
+    if cfg.dw_none:
+        res.bin("data_width_omitted")
+    if cfg.ser_wide and cfg.mlw:
+        res.bin("serializer_wide_with_max_length")
     try:
-        b = Bench(dut, domain="sync", freq=60e6, max_cycles=40000)
+        if cfg.domain == "sync":
+            b = Bench(dut, domain="sync", freq=60e6, max_cycles=40000)
+        else:
+            res.bin("sync_bystander_faster" if cfg.sync_freq > 60e6 else "sync_bystander_slower")
+            b = Bench(with_bystander(dut), domain=cfg.domain, freq=60e6, clocks={"sync": cfg.sync_freq}, max_cycles=40000)
     except icontract.ViolationError as e:
         res.violation("initializer_roundtrip_wrong", "config=%s: %s" % (cfg.describe(), str(e)[:300]))
         return
@@ -288,8 +339,21 @@ def run_case(rng, tier, res):
         """compare one offered word with the expectation; returns False after reporting a violation."""
         res.event("valid_cycles_compared")
         if bool(first) != bt["first"]:
-            fail("first_missing_on_first_word" if bt["first"] else "first_on_later_word", "first=%d" % first)
+            if o.get("sp_changed") and cfg.kind != "serializer":
+                # start_position is documented as "applied when start() is pulsed"
+                fail("first_flag_follows_start_position_changed_after_start", "first=%d, start_position changed after the start strobe" % first)
+            else:
+                fail("first_missing_on_first_word" if bt["first"] else "first_on_later_word", "first=%d" % first)
             return False
+        alt = o.get("alt")
+        if bool(last) != bt["last"] and alt and last and o["idx"] == len(alt) - 1:
+            # wide serializer: this DUT reads max_length in bytes, not in items; from now on that reading is demanded
+            cfg.ser_unit = "bytes"
+            o["beats"], o["alt"] = alt, None
+            bt = alt[o["idx"]]
+        elif alt and o["idx"] == len(alt) - 1 and not last:
+            cfg.ser_unit = "items"
+            o["alt"] = None
         if bool(last) != bt["last"]:
             fail("last_missing_on_final_word" if bt["last"] else "last_before_final_word",
                  "last=%d expected beats=%d" % (last, len(o["beats"])))
@@ -352,6 +416,7 @@ def run_case(rng, tier, res):
                     return
                 beats = cfg.expected(p, m)
                 o["beats"], o["oob"] = beats, beats is None
+                o["alt"] = cfg.alternative(p, m)
                 o["state"] = EXPECT
             return
         if s == ZERO:
@@ -484,8 +549,8 @@ def run_case(rng, tier, res):
             res.sig(r)
             yield
 
-    def garbage_inputs():
-        if cfg.sp_bits:
+    def garbage_inputs(sp=True):
+        if cfg.sp_bits and sp:
             b.set(dut.start_position, rng.randrange(1 << cfg.sp_bits))
         if has_ml:
             b.set(dut.max_length, rng.randrange(cfg.max_m + 1))
@@ -618,11 +683,26 @@ def run_case(rng, tier, res):
                                          "directed_stalls": directed})
             yield
             b.set(dut.start, 0)
-            # hold inputs; wait for the reference to return to idle
+            # inputs are "applied when start is pulsed": for the constant generator they may change afterwards
+            # (the serializer documents no latch: its inputs are held)
+            change = cfg.kind != "serializer" and rng.random() < 0.3
+            o["sp_changed"] = False
+            if change:
+                res.bin("inputs_changed_after_start")
             waited = 0
+            change_sp = change and (not has_ml or rng.random() < 0.4)
+            if change:
+                o["sp_changed"] = bool(cfg.sp_bits) and change_sp
+                garbage_inputs(sp=change_sp)
+                if o["sp_changed"]:
+                    res.bin("start_position_changed_after_start")
+                if has_ml:
+                    res.bin("max_length_changed_after_start")
             yield
             while o["state"] != IDLE:
                 waited += 1
+                if change and rng.random() < 0.4:
+                    garbage_inputs(sp=change_sp)
                 if waited > 3000 or o["abort"]:
                     if not o["abort"]:
                         res.violation("harness_wait_timeout", ctx())
